@@ -373,6 +373,18 @@ func builtinIntercepts() map[string]intercept {
 		x.oblige(c, "assert", msg)
 		return nil
 	}
+	m[apiPkg+"Candidate"] = func(x *Exec, fn *ssa.Function, args []Value) []Value {
+		// sufficient-condition obligation: a counterexample is only a candidate and must be confirmed natively
+		c := args[0].(*smt.Term)
+		msg := x.strString(args[1].(Str))
+		if c.IsTrue() {
+			x.res.Obligations++
+			x.res.Discharged++
+			return nil
+		}
+		x.oblige(c, "candidate", msg)
+		return nil
+	}
 	m[apiPkg+"Cover"] = func(x *Exec, fn *ssa.Function, args []Value) []Value {
 		c := args[0].(*smt.Term)
 		msg := x.strString(args[1].(Str))
@@ -500,6 +512,7 @@ func builtinIntercepts() map[string]intercept {
 		"(*sync.WaitGroup).Add", "(*sync.WaitGroup).Done", "(*sync.Cond).Broadcast", "(*sync.Cond).Signal", "runtime.Gosched", "runtime.KeepAlive"} {
 		m[n] = nop
 	}
+	m["image.RegisterFormat"] = nop
 	m["(*sync.WaitGroup).Wait"] = func(x *Exec, fn *ssa.Function, args []Value) []Value {
 		x.runPendingGo()
 		return nil
